@@ -19,7 +19,7 @@ RULE = ("scenario = (history in {H1 USR2+TERM old, H2 USR2+QUIT old, H3 USR2+TER
         "H6 USR2+TERM old+USR2+TERM promoted}, bind in {tcp, unix}, worker class, signal timing); distinct = scenario tuple; every "
         "scenario is non-trivial (each has two masters alive under client load)")
 
-HISTORIES = ["H1", "H2", "H3", "H4", "H5", "H6", "H8"]
+HISTORIES = ["H1", "H2", "H3", "H4", "H5", "H6", "H8", "H7"]
 
 
 def read_pid(path):
@@ -95,6 +95,8 @@ def run_scenario(run, e4, sc):
         settings["preload_app"] = True
         app_source = e4.APP_SOURCE.replace("import os, sys, time, signal, json\n",
                                            "import os, sys, time, signal, json\nif os.environ.get('GUNICORN_PID'):\n    time.sleep(1.5)\n", 1)
+    if hist == "H7":
+        settings["daemon"] = True       # WINCH only acts on a daemonized master
     srv = e4.Server("c14", worker_class=wc, workers=nworkers, settings=settings, bind=sc["bind"], app_source=app_source)
     pidfile = os.path.join(srv.dir, "u.pid")
     srv.write_conf(pidfile=pidfile)
@@ -178,6 +180,33 @@ def run_scenario(run, e4, sc):
                 v.append(("second-usr2-created-third-master", "masters %s after a second USR2 while an upgrade was pending" % third))
             else:
                 run.count("second_usr2_ignored_checks")
+        if hist == "H7":
+            # the documented back-out: stop the old master's workers (WINCH), then bring them back (HUP), stop the new master
+            srv.signal(signal.SIGWINCH, old)
+            if not wait_until(lambda: len(srv.worker_pids(old)) == 1 and srv.worker_pids(old) == [new], 10):
+                v.append(("winch-did-not-stop-old-workers", "old master still has workers %s" % srv.worker_pids(old)))
+            time.sleep(0.5)
+            srv.signal(signal.SIGHUP, old)
+            wait_until(lambda: len([p for p in srv.worker_pids(old) if p != new]) == nworkers, 10)
+            srv.signal(signal.SIGTERM, new)
+            if srv.wait_exit(new, 15) is None and e4.alive(new):
+                v.append(("master-did-not-exit", "new master %d did not exit after TERM" % new))
+                return v, None, info
+            run.count("first_exit_observed")
+            time.sleep(1.5)
+            single_master_state(e4, srv, old, nworkers, pidfile, v, "after-H7")
+            run.count("single_master_state_checks")
+            run.count("winch_backout_checks")
+            stop.set()
+            for t in threads:
+                t.join(15)
+            run.count("client_requests", len(log))
+            refused = [r for r in log if r["outcome"] in ("refused", "error")]
+            if refused:
+                v.append(("client-refused-during-upgrade", "%d of %d connection attempts failed" % (len(refused), len(log))))
+            srv.signal(signal.SIGTERM, old)
+            srv.wait_exit(old, 10)
+            return v, None, info
         # ---- who exits first ---------------------------------------------------------------------------
         graceful = hist in ("H1", "H3", "H5", "H6")
         if hist in ("H1", "H2", "H5", "H6"):
@@ -284,12 +313,12 @@ def main(tier, seed):
     run = Run(PROP, tier, seed, "exploration", RULE)
     run.require("scenarios", "upgrades_started", "both_live_pidfile_checks", "second_usr2_ignored_checks", "first_exit_observed",
                 "single_master_state_checks", "second_upgrade_works_checks", "client_requests", "bind/tcp", "bind/unix",
-                "history/H1", "history/H3", "history/H5", "history/H6", "history/H8")
+                "history/H1", "history/H3", "history/H5", "history/H6", "history/H8", "history/H7", "winch_backout_checks")
     shards = [{"scenario": sc, "seed": seed, "tier": tier} for sc in scenarios(tier, seed)]
     run.assumptions = [
         "the new master is identified as the live child of the old master that emitted when_ready and is not one of its workers",
         "a QUIT of a master (H2/H4) aborts its workers' requests by design: only refused connections are judged there",
-        "the daemonized back-out history (WINCH + HUP) is not exercised",
+        "H7 (daemonized master: USR2, WINCH old, HUP old, TERM new) is the documented back-out",
     ]
     common.run_sharded(run, shards, timeout=900 if tier == "quick" else 3600, nproc=min(8, common.NCPU))
     return run.finish()
